@@ -7,7 +7,7 @@
 (* task and an idle worker always meet, whatever lane the task was pushed  *)
 (* to.  The no-sharing mutant (Sharing = FALSE) violates it in TLC.        *)
 (***************************************************************************)
-EXTENDS TaskLane, TLAPS
+EXTENDS TaskLane, FiniteSetTheorems, TLAPS
 
 ASSUME ShareAssump == N \in Nat \ {0} /\ Sharing = TRUE
 
@@ -73,4 +73,14 @@ THEOREM Sharing_Safety == Spec => []NoIdleWhileWaiting
 <1>1. SInv => NoIdleWhileWaiting
   BY DEF SInv
 <1> QED BY SInit, SNext, <1>1, PTL DEF Spec
+
+(* At no instant are more than laneSize tasks executing: the running tasks are those of workers in "running", one per lane. *)
+THEOREM RunningBound == AtMostNRunning
+<1>1. IsFiniteSet(1..N) /\ Cardinality(1..N) = N
+  BY ShareAssump, FS_Interval
+<1>2. Running \in SUBSET (1..N)
+  BY DEF Running, Lanes
+<1>3. Cardinality(Running) <= Cardinality(1..N)
+  BY <1>1, <1>2, FS_Subset
+<1> QED BY <1>1, <1>3 DEF AtMostNRunning
 =============================================================================
